@@ -527,8 +527,29 @@ fn ver01() -> impl Strategy<Value = u8> {
 fn anyver() -> impl Strategy<Value = u8> {
     prop_oneof![3 => Just(0u8), 1 => Just(1u8), 1 => any::<u8>()]
 }
+/// four-character codes: well-known ones, near misses of the codes the library acts upon (case
+/// variants, a trailing blank, one flipped bit) and arbitrary bytes
 fn cc_any() -> impl Strategy<Value = Cc> {
-    prop_oneof![Just(*b"isom"), Just(*b"mp42"), Just(*b"vide"), any::<[u8; 4]>()]
+    let known: [&[u8; 4]; 10] = [b"isom", b"mp42", b"vide", b"soun", b"sbtl", b"mdir", b"text", b"qt  ", b"url ", b"mdta"];
+    prop_oneof![
+        4 => (0usize..10).prop_map(move |i| *known[i]),
+        3 => ((0usize..10), 0u8..16, 0u8..3).prop_map(move |(i, mask, how)| {
+            let mut c = *known[i];
+            match how {
+                0 => {
+                    for (j, b) in c.iter_mut().enumerate() {
+                        if mask >> j & 1 == 1 {
+                            *b = b.to_ascii_uppercase();
+                        }
+                    }
+                }
+                1 => c[(mask % 4) as usize] ^= 1 << (mask / 4),
+                _ => c[3] = b' ',
+            }
+            c
+        }),
+        3 => any::<[u8; 4]>(),
+    ]
 }
 pub fn text() -> impl Strategy<Value = String> {
     prop_oneof![4 => Just(String::new()), 8 => "[ -~]{1,12}", 4 => "[^\\x00]{1,6}", 1 => "[ -~]{60,300}", 2 => counted_lookalike()]
@@ -648,7 +669,7 @@ fn items_s() -> impl Strategy<Value = Vec<(u8, DataS)>> {
 fn meta_s() -> impl Strategy<Value = MetaS> {
     prop_oneof![
         3 => prop::option::of(items_s()).prop_map(|ilst| MetaS::Mdir { ilst }),
-        2 => (anyver(), flags24(), prop_oneof![Just(*b"mdta"), Just(*b"ID32"), any::<[u8; 4]>()], text(), prop::collection::vec((prop_oneof![Just(*b"keys"), Just(*b"free"), Just(*b"ilst"), Just(*b"xml ")], bytes(12)), 0..3)).prop_map(|(hdlr_version, hdlr_flags, handler, name, children)| MetaS::Unknown { hdlr_version, hdlr_flags, handler: if handler == *b"mdir" { *b"mdiR" } else { handler }, name, children }),
+        2 => (anyver(), flags24(), prop_oneof![2 => Just(*b"mdta"), 1 => Just(*b"ID32"), 3 => cc_any()], text(), prop::collection::vec((prop_oneof![Just(*b"keys"), Just(*b"free"), Just(*b"ilst"), Just(*b"xml ")], bytes(12)), 0..3)).prop_map(|(hdlr_version, hdlr_flags, handler, name, children)| MetaS::Unknown { hdlr_version, hdlr_flags, handler: if handler == *b"mdir" { *b"mdiR" } else { handler }, name, children }),
     ]
 }
 
